@@ -56,8 +56,9 @@ Proof. exact BodyL_is_the_expression. Qed.
 Print Assumptions C11_language_is_the_regular_expression.
 
 (* "...a valid URI template of which the topic is an expansion" (if): every RFC 6570 expansion - any
-   operator, prefix and explode modifiers, any number of variables, defined or not, string values of
-   any characters - of a selector the hub treats as a template is answered true, whatever the cache did before. *)
+   operator, prefix and explode modifiers, any number of variables, each undefined, a string or a list of strings
+   of any characters - of a selector the hub treats as a template is answered true, whatever the cache did before.
+   (Associative-array values are not modelled; for them the property fails in one known corner, DESIGN.md section 6.) *)
 Theorem C11_expansions_match : forall sel ps env f,
   ut_parse sel = Some ps -> ut_tmatch sel = Some f ->
   f (ut_expand ps env) = true /\ match_spec ut_tmatch (ut_expand ps env) sel = true.
@@ -98,7 +99,7 @@ Print Assumptions C11_only_expansions_match_refuted_name.
 
 Theorem C11_only_expansions_match_refuted_prefix :
   exists ps f, ut_parse w_sel2 = Some ps /\ ut_tmatch w_sel2 = Some f /\ f w_topic2 = true /\
-               forall env, (forall n v, env n = Some v -> Forall (fun c => c <> []) v) -> ut_expand ps env <> w_topic2.
+               forall env, (forall n v, env n = Some (VStr v) -> Forall (fun c => c <> []) v) -> ut_expand ps env <> w_topic2.
 Proof. exact match_without_expansion_prefix. Qed.
 Print Assumptions C11_only_expansions_match_refuted_prefix.
 
@@ -106,8 +107,12 @@ Print Assumptions C11_only_expansions_match_refuted_prefix.
 Example C11_template_nonvacuous :
   let sel := [47;97;123;63;120;58;51;44;121;42;125;98] in
   exists ps f, ut_parse sel = Some ps /\ ut_tmatch sel = Some f /\
-    ut_expand ps (fun _ => Some [[97];[32];[98];[99]]) =
+    ut_expand ps (fun _ => Some (VStr [[97];[32];[98];[99]])) =
       [47;97;63;120;61;97;37;50;48;98;38;121;61;97;37;50;48;98;99;98] /\
+    (* x undefined, y the list ("a", "", "b c"): "/a?y=a&y=&y=b%20cb" *)
+    ut_expand ps (fun n => if str_eqb n [121] then Some (VList [[[97]]; []; [[98];[32];[99]]]) else None) =
+      [47;97;63;121;61;97;38;121;61;38;121;61;98;37;50;48;99;98] /\
+    f [47;97;63;121;61;97;38;121;61;38;121;61;98;37;50;48;99;98] = true /\
     f [47;97;63;120;61;97;37;50;48;98;38;121;61;97;37;50;48;98;99;98] = true /\ f [47;97;47;98] = false.
 Proof. eexists. eexists. vm_compute. repeat split; reflexivity. Qed.
 
